@@ -167,9 +167,11 @@ def draw_instance(rng: random.Random, iid, t, shape, *, poly=False, hist_len=3, 
         struct = (outer, [bstruct(b) for b in blocks])
     meta = {"names": names, "struct": struct, "shape": shape,
             "jac_kinds": None, "full_jac": [rng.random() < 0.5 for _ in range(n)]}
-    jk = rng.choice(["dense", "sparse", "operator", "mixed"])
+    jk = rng.choice(["dense", "sparse", "operator", "mixed", "mixed_int"])
     meta["jac_kind"] = jk
-    meta["jac_kinds"] = [rng.choice(["dense", "sparse", "operator"]) if jk == "mixed" else jk for _ in range(n)]
+    per_leaf = {"mixed": ["dense", "sparse", "operator"],
+                "mixed_int": ["dense", "dense_i", "sparse", "sparse_i", "operator"]}
+    meta["jac_kinds"] = [rng.choice(per_leaf[jk]) if jk in per_leaf else jk for _ in range(n)]
     meta["rng_state"] = rng.random()  # for the request history, drawn once the chain grammars are known
     meta["hist_len"] = 0 if exhaustive else hist_len
     return inst, meta
@@ -444,10 +446,14 @@ def exhaustive_histories(ck: Check, rng, seq_topos, ind_topos, self_topos, next_
         # every history on every representation of the leaves' Jacobians (the specification does not depend on it):
         # up to the full depth as the instance was drawn, up to depth 2 on the three uniform representations
         upto2 = [k for k in keys if len(k) == min(2, depth)]
-        for jk in (None, "dense", "sparse", "operator"):
+        for jk in (None, "dense", "sparse", "operator", "int_float"):
             if jk is None and depth <= 2:
                 continue
-            meta = metas[iid] if jk is None else dict(metas[iid], jac_kind=jk, jac_kinds=[jk] * inst["n"])
+            if jk == "int_float":   # integer-typed and float-typed leaves alternate (both accumulation orders)
+                kinds = [("dense_i", "dense", "sparse_i", "sparse")[(d + iid) % 4] for d in range(inst["n"])]
+                meta = dict(metas[iid], jac_kind=jk, jac_kinds=kinds)
+            else:
+                meta = metas[iid] if jk is None else dict(metas[iid], jac_kind=jk, jac_kinds=[jk] * inst["n"])
             checked = set()
             for key in sorted(maximal if jk is None else upto2):
                 hist = [[list(a), list(b), c, d] for a, b, c, d in key]
